@@ -282,6 +282,7 @@ func (w *concWorld) Exec(p *Plan, st *RunStats) *Violation {
 	switches, inOpSwitch, schedHash, schedTrace = 0, 0, 0, nil
 	start := stepCount
 	s := makeSubject(p.Cfg, false)
+	twin := makeSubject(p.Cfg, false)
 	o := NewOracle("C18", "C18")
 	o.Kind = p.Cfg.Kind
 	inert := NewOracle("C18")
@@ -289,45 +290,15 @@ func (w *concWorld) Exec(p *Plan, st *RunStats) *Violation {
 	concurrentPhases := 0
 	races0 := raceErrors()
 
-	runPhase := func(phaseOp Op, scripts [][]Op, amplified bool) {
-		o.cur = phaseOp
-		// 1. sequential reference: every scripted call alone; purity of each call
-		pre := s.ObsJSON()
-		img := fingerprint(s.Real())
-		expected := make([][]string, len(scripts))
-		var suspects []Op
-		for ri, sc := range scripts {
-			expected[ri] = make([]string, len(sc))
-			for i, op := range sc {
-				op := op
-				safely(o, op, func() { expected[ri][i] = s.DoRead(op) })
-				if o.Failed() {
-					return
-				}
-				if img2 := fingerprint(s.Real()); img2 != img {
-					img = img2
-					st.Probe("image-changed-by-read-op")
-					suspects = append(suspects, op)
-					if obs := s.ObsJSON(); obs != pre {
-						o.cur = op
-						o.Fail("C18", "read-op-modified-container", "%s (a read-only operation) changed the container:\n before %s\n after  %s", op, pre, obs)
-						return
-					}
-				}
-			}
-		}
-		if post := s.ObsJSON(); post != pre {
-			o.Fail("C18", "read-ops-modified-container", "a sequence of read-only operations changed the container:\n before %s\n after  %s", pre, post)
-			return
-		}
-		// 2. the same scripts as concurrent reader tasks under the seeded scheduler
+	// concurrentRun executes the scripts as reader tasks on subject sub under the seeded scheduler.
+	concurrentRun := func(sub Subject, scripts [][]Op) []*task {
 		tasks := make([]*task, len(scripts))
 		var wg sync.WaitGroup
 		schedCh = make(chan int)
 		for i, sc := range scripts {
 			tasks[i] = &task{id: i, wake: make(chan struct{}), script: sc, results: make([]string, len(sc))}
 			wg.Add(1)
-			go runTask(tasks[i], s, &mu, &wg)
+			go runTask(tasks[i], sub, &mu, &wg)
 		}
 		schedule(tasks)
 		wg.Wait() // the join: results are read after a real happens-before edge
@@ -341,21 +312,21 @@ func (w *concWorld) Exec(p *Plan, st *RunStats) *Violation {
 					} else {
 						o.Fail("C18", "panic", "reader %d: %s panicked under concurrent readers: %v\n%s", t.id, o.cur, t.panicV, t.panicSt)
 					}
-					return
+					return nil
 				}
 				fmt.Fprintf(diag, "HARNESS BUG: reader task panicked outside the library: %v\n%s\n", t.panicV, t.panicSt)
 				panic(harnessBug{t.panicV})
 			}
 		}
 		if n := raceErrors(); n != races0 {
-			o.Fail("C18", "data-race", "the race detector reported %d data race(s) during concurrent read-only calls (%d readers, strategy %s)", n-races0, len(scripts), p.Cfg.Strat)
+			o.Fail("C18", "data-race", "the race detector reported %d data race(s) during concurrent read-only calls (%d readers, strategy %s)", n-races0, len(scripts), schedStrat)
 			if o.V != nil {
 				o.V.Race = readRaceLog()
 				if o.V.Race == "" {
 					o.V.Race = "(report text not captured)"
 				}
 			}
-			return
+			return nil
 		}
 		if traceOn {
 			for ri, t := range tasks {
@@ -364,36 +335,107 @@ func (w *concWorld) Exec(p *Plan, st *RunStats) *Violation {
 				}
 			}
 		}
-		for ri, t := range tasks {
-			for i := range t.script {
-				if t.results[i] != expected[ri][i] {
-					o.cur = t.script[i]
-					o.Fail("C18", "result-differs-from-sequential", "reader %d: %s returned %q under concurrent readers, %q when executed alone", ri, t.script[i], t.results[i], expected[ri][i])
-					return
+		return tasks
+	}
+	// judge runs the readers concurrently FIRST, on the state as the writer left it (a lazily
+	// initialised cache is still cold), then every scripted call alone as the sequential reference.
+	judge := func(sub, twinOf Subject, phaseOp Op, scripts [][]Op) (imageChanged bool) {
+		o.cur = phaseOp
+		// The state before the phase is observed on a twin (an identically built second container):
+		// calling observers on the container itself would already be a read and would warm any lazily
+		// maintained internal structure before the concurrent readers get to it.
+		pre := twinOf.ObsJSON()
+		img0 := fingerprint(sub.Real())
+		tasks := concurrentRun(sub, scripts)
+		if tasks == nil {
+			return false
+		}
+		o.cur = phaseOp
+		if post := sub.ObsJSON(); post != pre {
+			o.Fail("C18", "state-changed-by-readers", "the container's observable state changed during a read phase:\n before %s\n after  %s", pre, post)
+			return false
+		}
+		img := fingerprint(sub.Real())
+		imageChanged = img != img0
+		for ri, sc := range scripts {
+			for i, op := range sc {
+				op := op
+				var want string
+				safely(o, op, func() { want = sub.DoRead(op) })
+				if o.Failed() {
+					return false
+				}
+				if img2 := fingerprint(sub.Real()); img2 != img {
+					img = img2
+					imageChanged = true
+					if obs := sub.ObsJSON(); obs != pre {
+						o.cur = op
+						o.Fail("C18", "read-op-modified-container", "%s (a read-only operation) changed the container:\n before %s\n after  %s", op, pre, obs)
+						return false
+					}
+				}
+				if got := tasks[ri].results[i]; got != want {
+					o.cur = op
+					o.Fail("C18", "result-differs-from-sequential", "reader %d: %s returned %q under concurrent readers, %q when executed alone", ri, op, got, want)
+					return false
 				}
 			}
 		}
-		if post := s.ObsJSON(); post != pre {
-			o.Fail("C18", "state-changed-by-readers", "the container's observable state changed during a read phase:\n before %s\n after  %s", pre, post)
+		if post := sub.ObsJSON(); post != pre {
+			o.cur = phaseOp
+			o.Fail("C18", "read-ops-modified-container", "a sequence of read-only operations changed the container:\n before %s\n after  %s", pre, post)
+		}
+		return imageChanged
+	}
+	// coldCopy rebuilds the container as the writer left it before the given phase, with no read ever
+	// executed on it (the coldest state of any lazily maintained internal structure).
+	coldCopy := func(upTo int) Subject {
+		c := makeSubject(p.Cfg, false)
+		permSeed, permCounter = p.Cfg.MapSeed, 0
+		for _, op := range p.Ops {
+			if op.ID == upTo {
+				break
+			}
+			if op.N == "ReadPhase" {
+				continue
+			}
+			op := op
+			mu.Lock()
+			safely(inert, op, func() { inert.V = nil; c.Step(op, inert) })
+			mu.Unlock()
+		}
+		return c
+	}
+	runPhase := func(phaseOp Op, scripts [][]Op) {
+		if !judge(s, twin, phaseOp, scripts) || o.Failed() {
 			return
 		}
-		// 4. amplification: an operation that changed the memory image is run by two tasks at once
-		if !amplified && len(suspects) > 0 {
-			for _, op := range suspects[:min(len(suspects), 3)] {
+		// A read-only call changed the memory image without changing anything observable. That is not a
+		// verdict (a properly synchronised cache is race-free and invisible): it triggers amplification
+		// runs in which each operation of the phase is executed by two tasks at once on a cold copy,
+		// switching at every yield.
+		st.Probe("image-changed-by-read-op")
+		seen := map[string]bool{}
+		saveStrat := schedStrat
+		defer func() { schedStrat = saveStrat }()
+		for _, sc := range scripts {
+			for _, op := range sc {
+				if seen[op.N] || len(seen) >= 8 {
+					continue
+				}
+				seen[op.N] = true
 				st.Probe("amplification-run")
-				saveStrat := schedStrat
+				cold := coldCopy(phaseOp.ID)
 				schedStrat = "every-yield"
 				a, b := op, op
 				b.ID = op.ID + 500000
-				runPhaseAmp(phaseOp, [][]Op{{a, a}, {b, b}})
-				schedStrat = saveStrat
+				judge(cold, twin, phaseOp, [][]Op{{a}, {b}})
 				if o.Failed() {
 					return
 				}
 			}
 		}
 	}
-	runPhaseAmpImpl = func(phaseOp Op, scripts [][]Op) { runPhase(phaseOp, scripts, true) }
 
 	for _, op := range p.Ops {
 		op := op
@@ -412,11 +454,12 @@ func (w *concWorld) Exec(p *Plan, st *RunStats) *Violation {
 				}
 			}
 			if len(scripts) > 0 {
-				runPhase(op, scripts, false)
+				runPhase(op, scripts)
 			}
 		} else {
 			mu.Lock()
 			safely(inert, op, func() { inert.V = nil; s.Step(op, inert) })
+			safely(inert, op, func() { inert.V = nil; twin.Step(op, inert) })
 			mu.Unlock()
 		}
 		if o.Failed() {
@@ -433,7 +476,3 @@ func (w *concWorld) Exec(p *Plan, st *RunStats) *Violation {
 	}
 	return o.V
 }
-
-var runPhaseAmpImpl func(Op, [][]Op)
-
-func runPhaseAmp(op Op, scripts [][]Op) { runPhaseAmpImpl(op, scripts) }
